@@ -50,6 +50,30 @@ CLAIMED.update({
                      "chain ids, undecodable bytes and window edges."),
 })
 
+CLAIMED.update({
+    "C11": dict(cat="model_checking", sec="5/C11",
+                text="Locks.tla models std's writer-preferring RwLock; the lock programs of every registered handler are recorded "
+                     "from the real code (hook H3) in five engine states on every run, and TLC explores every interleaving of every "
+                     "pair (quick) / triple (thorough) of programs, reporting each reachable state where an unfinished thread "
+                     "exists and nobody can move.",
+                note="RwLock semantics (writer preference) as implemented by std on Linux; programs are observed in 5 engine-state "
+                     "classes, not derived statically; tokio scheduling and the bounded 5 s wait are not modelled",
+                tech="TLA+ lock model + TLC exhaustive interleavings over lock programs recorded from the implementation"),
+    "C12": dict(cat="model_checking", sec="5/C12",
+                text="AuthGate.tla is the complete decision table (method x form x header x auth on/off); TLC checks the property on "
+                     "it and every case is replayed over HTTP against a server started by the public start(), with a state digest "
+                     "before and after each request; methods outside the protected set must not change the digest.",
+                note="HTTP transport only (WebSocket upgrade not exercised); notification execution is unobservable for two methods",
+                tech="TLA+ decision table enumerated by TLC, every case replayed against the real HTTP server"),
+    "C20": dict(cat="model_checking", sec="5/C20",
+                text="ConfigGate.tla enumerates directory state x creating configuration x opening configuration x tampered/missing "
+                     "rows; TLC checks the property on the table and each case is replayed through the public start(); on success "
+                     "the served state must equal the state recorded before shutdown.",
+                note="version mismatches are produced by altering the recorded rows; quick tier omits tampering on already "
+                     "mismatching pairs",
+                tech="TLA+ decision table enumerated by TLC, every case replayed through the public start()"),
+})
+
 NOT_YET = {}
 
 NA = {
